@@ -7,7 +7,7 @@
    layers of the real stack; the abstract parts of DictZipBlobStore and CachedBlobStore are instantiated with the
    stand-ins of their model files (the theorems say the observations do not depend on the choice). *)
 From ZV.Common Require Import Base Run.
-From ZV.C03 Require Import Model ModelStore ModelWrap ModelCached ModelDictZip ModelPlain ModelZero.
+From ZV.C03 Require Import Model ModelStore ModelWrap ModelCached ModelDictZip ModelPlain ModelZero ModelBatch ModelNltb ModelFromData ModelZeroFinish.
 Open Scope N_scope.
 
 Definition ctable := list (bytes * bytes).
@@ -142,7 +142,16 @@ Inductive xcase :=
 | XPlain (ops : list pop) (expect : list (list N)) (dir : dirmap)
 (* PlainBlobStore::new on a directory that already holds record files, then a history; the first observation is that of
    new(): [1], or [0] when it panicked *)
-| XPlainOpen (m : dirmap) (ops : list pop) (expect : list (list N)) (dir : dirmap).
+| XPlainOpen (m : dirmap) (ops : list pop) (expect : list (list N)) (dir : dirmap)
+(* BatchZipOffsetBlobStoreBuilder: the add_record / flush_batch calls made, whether finish() succeeded, the saved image *)
+| XBatch (c : zcfg) (batch_size : N) (ops : list bop) (built : bool) (image : bytes)
+(* NestLoudsTrieBlobStoreBuilder: entries as added, whether the builder sorts, what the finished store answered
+   (get_by_key + contains_key per key, get + contains for ids 0..n+1, len) *)
+| XNltb (batch_opt : bool) (es : list entry) (kexp : list (bytes * list N)) (iexp : list (list N)) (len : N)
+(* MemoryBlobStore::from_data(map) then a history; `[[0]]` when from_data panicked *)
+| XFromData (m : list (N * bytes)) (ops : list mop) (expect : list (list N))
+(* ZeroLengthBlobStore::finish(n) then a history *)
+| XZeroFinish (n : N) (ops : list xop) (expect : list (list N)).
 
 Definition check_xcase (x : xcase) : bool :=
   match x with
@@ -160,4 +169,18 @@ Definition check_xcase (x : xcase) : bool :=
       | Some st => eqb_lln ([1] :: plain_prun st ops) expect && dir_agrees (p_dir (plain_pexec st ops)) dir
       | None => eqb_lln [[0]] expect
       end
+  | XBatch c bs ops built image =>
+      match batch_build id_codec_c c bs ops with
+      | None => false                                   (* a slice bounds check of flush_batch fired *)
+      | Some (ids, None) => negb built && eqb_bytes ids (seq_ids (length (bop_recs ops)))
+      | Some (ids, Some st) =>
+          built
+          && eqb_bytes ids (seq_ids (length (bop_recs ops)))      (* the harness saw add_record #i answer i *)
+          && eqb_bytes (zip_image c st) image
+          && all_records_back (zip_get id_codec_d c st) (bop_recs ops)
+          && (zip_len st =? nlen (bop_recs ops))
+      end
+  | XNltb batch_opt es kexp iexp len => check_nltb batch_opt es kexp iexp len
+  | XFromData m ops expect => check_from_data m ops expect
+  | XZeroFinish n ops expect => check_zero_finish n ops expect
   end.
